@@ -582,20 +582,42 @@ func c12walFiles(dir string) []string {
 }
 
 func (r *c12run) reopen(retire bool, interval int64) bool {
-	if err := r.e.Close(); err != nil {
-		r.out("IMPL-ERROR close " + strings.ReplaceAll(err.Error(), " ", "_"))
-	}
-	if retire {
-		// Legitimate: r.retir was recorded right after a full flush (every write acknowledged so
-		// far was in an SSTable, the log had just been rotated) and lists every log file but the
-		// then-current one; these files hold no entry that is not in an SSTable. This is what a
-		// log-retention policy (wal.ManageRetention with MinSequenceKeep = first unflushed
-		// sequence) removes.
+	if retire && len(r.retir) > 0 {
+		// Log retirement through the real retention code (wal.ManageRetention on the engine's WAL,
+		// as pkg/replication/primary.go calls it). Legitimate: r.retir was recorded right after a
+		// full flush (every write acknowledged so far was in an SSTable, the log had just been
+		// rotated) and lists every log file but the then-current one, i.e. the oldest files; they
+		// hold no entry that is not in an SSTable. MaxFileCount keeps the current file and the
+		// files written since.
+		all := c12walFiles(r.dir)
+		keep := len(all) - len(r.retir)
+		if keep < 1 {
+			keep = 1
+		}
+		n, err := r.e.VerifStorage().VerifWAL().ManageRetention(wal.WALRetentionConfig{MaxFileCount: keep})
+		left := map[string]bool{}
+		for _, p := range c12walFiles(r.dir) {
+			left[p] = true
+		}
+		okSet := err == nil && n == len(r.retir) && len(left) == keep
 		for _, p := range r.retir {
-			os.Remove(p)
+			if left[p] {
+				okSet = false
+			}
+		}
+		if !okSet {
+			r.fail("", fmt.Sprintf("log retention with MaxFileCount=%d removed %d files (error %v), expected exactly the %d flushed files", keep, n, err, len(r.retir)))
+			for _, p := range r.retir {
+				os.Remove(p)
+			}
 		}
 		r.retir = nil
+	}
+	if retire {
 		r.nRetired++
+	}
+	if err := r.e.Close(); err != nil {
+		r.out("IMPL-ERROR close " + strings.ReplaceAll(err.Error(), " ", "_"))
 	}
 	if err := c12manifest(r.dir, r, interval); err != nil {
 		r.out("IMPL-ERROR manifest " + err.Error())
@@ -992,7 +1014,7 @@ func (g *c12gen) val() string {
 }
 
 func (g *c12gen) key(nkeys int) string {
-	alphabet := []string{"61", "62", "6162", "ff", "00", "6b65792d30303031", "6d", "7a7a", "6100", "63", "64", "65"}
+	alphabet := []string{"61", "62", "-", "6162", "ff", "00", "6b65792d30303031", "6d", "7a7a", "6100", "63", "64", "65"} // "-" = the empty key
 	if nkeys > len(alphabet) {
 		nkeys = len(alphabet)
 	}
@@ -1131,7 +1153,7 @@ func genC12(w *bufio.Writer, seed int64, n int, tier string) {
 		}
 		fmt.Fprintf(w, "full\nretire\n")
 		for k := 0; k < nkeys; k++ {
-			fmt.Fprintf(w, "get %s\n", []string{"61", "62", "6162", "ff", "00", "6b65792d30303031", "6d"}[k])
+			fmt.Fprintf(w, "get %s\n", []string{"61", "62", "-", "6162", "ff", "00", "6b65792d30303031", "6d"}[k])
 		}
 		fmt.Fprintf(w, "end\n")
 	}
